@@ -57,6 +57,11 @@ def _interval_dict(d, tz):
                     out[k] = np.array([np.datetime64(x.tz_localize(None) if x.tzinfo else x) for x in vals])
                 elif form == "index":
                     out[k] = pd.DatetimeIndex(vals)
+                elif form == "objarray":  # what Series.to_numpy() gives for a (zone-aware) date column
+                    arr = np.empty(len(vals), dtype=object)
+                    for i_, x_ in enumerate(vals):
+                        arr[i_] = x_
+                    out[k] = arr
                 else:
                     out[k] = vals
             else:
